@@ -271,6 +271,8 @@ class Fn:
                         push_op(rhs['a'])
                         if rv == 'un':
                             sl.unops.add(rhs.get('uop'))
+                        if rv == 'cast':
+                            sl.casts.add((rhs.get('kind'), rhs.get('to')))
                     elif rv == 'bin':
                         sl.binops.add(rhs['bop'])
                         push_op(rhs['a'])
@@ -311,6 +313,7 @@ class Slice:
         self.call_terms = []
         self.binops = set()
         self.unops = set()
+        self.casts = set()
         self.aggs = set()
         self.closures = set()
         self.fnrefs = set()
